@@ -101,6 +101,12 @@ def run(E: Engine, rep: Report, tier: str) -> dict:
                 m_ = m_ or _is(it, pat_)
             decided = any(_is(x, "np.any(Q_m)", m_) is not None for x in _sym.conj_of(l.cond)) if m_ else False
             ok = m_ is not None and decided
+            if not ok:
+                # the same enumeration written as a filter: [id for id, bad in zip(ids, <mask>) if bad]
+                mz = _is(it, "zip(Q_ids, Q_m)")
+                el = ("elem", it, 0)
+                if mz is not None and inv[3][0][1] == ("item", el, 1) and inv[2] == ("item", el, 0):
+                    ok = any(_is(x, "np.any(Q_m)", {"Q_m": mz["Q_m"]}) is not None for x in _sym.conj_of(l.cond))
         rep.check(ok, "SIB", "BaseDevice._validate_radial_distance|all-offenders-reported", "invalid = [ids[i] for i in <all indices of the deciding mask>]", f"the offending atoms are taken from `{_sh(inv[3][0][0], 80) if inv is not None and inv[0] == 'comp' else _sh(inv, 80)}`: this must enumerate every index where the deciding mask holds (np.where(mask)[0]); e.g. np.argwhere(mask)[0] is only the first offender", E.where(frd, l.node))
     rep.floor("SIB", 3)
 
